@@ -203,7 +203,7 @@ func (mpt *MerklePatriciaTrie) Insert(path Path, value MPTSerializable) (Key, er
 	mpt.mutex.Lock()
 	defer mpt.mutex.Unlock()
 	var newRootHash Key
-	if mpt.root == nil {
+	if len(mpt.root) == 0 {
 		_, newRootHash, err = mpt.insertLeaf(nil, valueCopy, Path(""), path)
 	} else {
 		_, newRootHash, err = mpt.insert(valueCopy, mpt.root, Path(""), path)
@@ -437,7 +437,7 @@ func (mpt *MerklePatriciaTrie) insertExtension(oldNode Node, path Path, key Key)
 }
 
 func (mpt *MerklePatriciaTrie) delete(key Key, prefix, path Path) (Node, Key, error) {
-	if key == nil {
+	if len(key) == 0 {
 		return nil, nil, ErrValueNotPresent
 	}
 	node, err := mpt.getNode(key)
